@@ -4,6 +4,7 @@ mod c15;
 mod c19;
 mod c17;
 mod c18;
+mod c14;
 use util::*;
 
 fn main() {
@@ -50,6 +51,7 @@ fn main() {
                 "C19" => c19::corr(&mut ctx),
                 "C17" => c17::corr(&mut ctx),
                 "C18" => c18::corr(&mut ctx),
+                "C14" => c14::corr(&mut ctx),
                 "C19sweep" => c19::sweep(&mut ctx),
                 _ => {
                     eprintln!("unknown property {}", prop);
